@@ -3,7 +3,7 @@ Function inlining.
 """
 
 from collections.abc import Iterable
-from dataclasses import dataclass
+from dataclasses import dataclass, field, replace
 
 from ..analysis import (
     AssignDef,
@@ -11,6 +11,7 @@ from ..analysis import (
     DefineUse,
     DefineUseAnalysis,
     PhiDef,
+    Purity,
     Reachability,
     ReachingDefs,
     SyntaxCheck,
@@ -43,23 +44,45 @@ class _Ctx:
     stmts: list[Stmt]
     is_ctx_expr: bool
     in_while_cond: bool = False
+    lazy: str | None = None
+    """what the expression is part of, where that is evaluated conditionally or
+    repeatedly rather than exactly once"""
+    evaluated: list[Expr] = field(default_factory=list)
+    """what the statement has evaluated by now: the finished operands to the
+    left of the expression being visited, at every level above it"""
 
     @staticmethod
     def default():
         return _Ctx(stmts=[], is_ctx_expr=False)
 
 
-def _refuses(e: Call, *, in_while_cond: bool) -> str | None:
+def _refuses(e: Call, ctx: _Ctx, def_use: DefineUseAnalysis) -> str | None:
     """Why the call *e* cannot be inlined, or `None` where it can.
 
-    Decided from the call and the callee alone, so a listing and the rewrite
-    agree and neither spends an index on a call it will not inline.
+    Decided from the call, its position and the callee alone, so a listing and
+    the rewrite agree and neither spends an index on a call it will not inline.
     """
     assert isinstance(e.fn, Function)
-    if in_while_cond:
+    if ctx.in_while_cond:
         return (
             f'inlining `{e.fn.name}` here would splice its body before the '
             f'loop, where a `while` condition is evaluated every iteration'
+        )
+    if ctx.lazy is not None:
+        return (
+            f'inlining `{e.fn.name}` here would splice its body before the '
+            f'statement, to run exactly once, where {ctx.lazy} is evaluated '
+            f'conditionally or repeatedly'
+        )
+    # The body lands ahead of the whole statement, so ahead of whatever the
+    # statement evaluates before the call.  Harmless past a name or a constant;
+    # past anything else, only if neither has an effect the other could observe.
+    moved = [a for a in ctx.evaluated if not isinstance(a, Var | ValueExpr)]
+    if moved and not all(Purity.analyze_expr(a, def_use) for a in (*moved, e)):
+        return (
+            f'inlining `{e.fn.name}` here would run it before '
+            f'`{moved[0].format()}`, which the statement evaluates first, and '
+            f'they are not both free of side effects'
         )
     # inlining rewrites the trailing return into an assignment to a temp (see
     # `_replace_ret`): none leaves nothing to rewrite, and several would emit
@@ -124,7 +147,7 @@ class _FuncInline(SiteRewriter):
             return super()._visit_call(e, ctx)
 
         # a refusal is not a site, so it takes no index
-        reason = _refuses(e, in_while_cond=ctx.in_while_cond)
+        reason = _refuses(e, ctx, self.def_use)
         if reason is not None:
             self.refused.append((e, reason))
             if self._named_by_cursor(e):
@@ -206,6 +229,63 @@ class _FuncInline(SiteRewriter):
         return Var(t, e.loc)
 
 
+    def _visit_expr(self, e: Expr, ctx: _Ctx):
+        mark = len(ctx.evaluated)
+        out = super()._visit_expr(e, ctx)
+        # `e` is evaluated now, and its operands with it
+        del ctx.evaluated[mark:]
+        ctx.evaluated.append(e)
+        return out
+
+    def _visit_naryop(self, e: NaryOp, ctx: _Ctx):
+        if not isinstance(e, And | Or):
+            return super()._visit_naryop(e, ctx)
+        # `and` / `or` short-circuit
+        later = replace(ctx, lazy='a later operand of `and` / `or`')
+        args = [self._visit_expr(e.args[0], ctx)]
+        args += [self._visit_expr(arg, later) for arg in e.args[1:]]
+        return type(e)(args, e.loc)
+
+    def _visit_compare(self, e: Compare, ctx: _Ctx):
+        # a chain stops at the first comparison that fails
+        later = replace(ctx, lazy='a later operand of a comparison chain')
+        args = [self._visit_expr(arg, ctx) for arg in e.args[:2]]
+        args += [self._visit_expr(arg, later) for arg in e.args[2:]]
+        return Compare(e.ops, args, e.loc)
+
+    def _visit_list_comp(self, e: ListComp, ctx: _Ctx):
+        # only the first iterable is evaluated once and unconditionally
+        later = replace(ctx, lazy='a later generator of a comprehension')
+        elt_ctx = replace(ctx, lazy='the element of a comprehension')
+        targets = [self._visit_binding(target, ctx) for target in e.targets]
+        iterables = [self._visit_expr(e.iterables[0], ctx)]
+        iterables += [self._visit_expr(it, later) for it in e.iterables[1:]]
+        elt = self._visit_expr(e.elt, elt_ctx)
+        return ListComp(targets, iterables, elt, e.loc)
+
+    def _visit_if_expr(self, e: IfExpr, ctx: _Ctx):
+        branch = replace(ctx, lazy='a branch of an `if` expression')
+        cond = self._visit_expr(e.cond, ctx)
+        ift = self._visit_expr(e.ift, branch)
+        iff = self._visit_expr(e.iff, branch)
+        return IfExpr(cond, ift, iff, e.loc)
+
+    def _visit_indexed_assign(self, stmt: IndexedAssign, ctx: _Ctx):
+        # the value is evaluated first, the indices after it
+        ctx.evaluated.append(stmt.expr)
+        indices = [self._visit_expr(s, ctx) for s in stmt.indices]
+        ctx.evaluated.clear()
+        expr = self._visit_expr(stmt.expr, ctx)
+        return IndexedAssign(stmt.var, indices, expr, stmt.loc), None
+
+    def _visit_assert(self, stmt: AssertStmt, ctx: _Ctx):
+        test = self._visit_expr(stmt.test, ctx)
+        msg = stmt.msg
+        if msg is not None:
+            # evaluated only when the test fails
+            msg = self._visit_expr(msg, replace(ctx, lazy='an `assert` message'))
+        return AssertStmt(test, msg, stmt.loc), None
+
     def _visit_while(self, stmt: WhileStmt, ctx: _Ctx):
         cond = self._visit_expr(stmt.cond, _Ctx(ctx.stmts, False, in_while_cond=True))
         body, _ = self._visit_block(stmt.body, ctx)
@@ -221,6 +301,7 @@ class _FuncInline(SiteRewriter):
         block_ctx = _Ctx.default()
         for pos, stmt in enumerate(block.stmts):
             self._site = (block, pos)
+            block_ctx.evaluated.clear()
             before = len(block_ctx.stmts)
             stmt, _ = self._visit_statement(stmt, block_ctx)
             block_ctx.stmts.append(stmt)
